@@ -1,1 +1,213 @@
-Theorem placeholder : True. Proof. exact I. Qed.
+(** C06 — KSWIN and STEPD.
+    Model: Model/Window.v (KSWIN: deque window, the random draw is an oracle input of the
+    update; STEPD: AccuracyQueue ring buffer, thresholds z_d / z_w = norm.isf(alpha) oracle),
+    Model/KS.v (exact KS statistic H = n m D and exact p-value).
+    Proofs: Proofs/WindowR.v (uses Proofs/KSPaths.v, Proofs/QueueRef.v, Proofs/IKSR.v). *)
+From Coq Require Import ZArith List Bool Reals Permutation.
+From FV Require Import NumSys RealA Py Sums Queue Stats Detector KS Window QueueRef KSPaths WindowR.
+Import ListNotations.
+Local Open Scope Z_scope.
+
+(* ------------------------------------------------------------------ KSWIN: the window *)
+
+(** After any history of updates and resets the window holds exactly the last
+    min_num_instances values received since the last reset (every number system; the input of
+    an update is the pair (value, draw of the oracle)). *)
+Theorem C06_kswin_window : forall (A : Arith) (c : kswin_cfg) (ops : list (op (NumSys.num A * list (NumSys.num A)))),
+  kwin (exec (KSWIND A) c ops) =
+  lastn (Z.to_nat (kw_min c)) (map fst (inputs_since_reset ops [])).
+Proof. exact (@kswin_window). Qed.
+Print Assumptions C06_kswin_window.
+
+(* ------------------------------------------------------------------ KSWIN: the rule *)
+
+(** Before min_num_instances values have arrived: no drift.  Afterwards: drift iff the exact
+    two-sample KS p-value between the drawn sample and the newest num_test_instances values of
+    the window is <= alpha (alpha = kw_alpha_num / kw_alpha_den). *)
+Theorem C06_kswin_rule : forall (A : Arith) (c : kswin_cfg) (ops : list (op (NumSys.num A * list (NumSys.num A))))
+    (v : NumSys.num A) (sample : list (NumSys.num A)),
+  let ops' := ops ++ [Upd (v, sample)] in
+  let s' := exec (KSWIND A) c ops' in
+  kdrift s' =
+  if kw_min c <=? updates_since_reset (KSWIND A) ops'
+  then ks_p_le sample (lastn (Z.to_nat (kw_test c)) (kwin s')) (kw_alpha_num c) (kw_alpha_den c)
+  else false.
+Proof. exact (@kswin_rule). Qed.
+Print Assumptions C06_kswin_rule.
+
+(** [ks_p_le X Y a b] is "p-value at the observed statistic <= a / b" *)
+Theorem C06_ks_p_le_unfold : forall (A : Arith) (X Y : list (NumSys.num A)) a b,
+  ks_p_le X Y a b = p_le_at (len X) (len Y) (ks_H X Y) a b.
+Proof. exact ks_p_le_at. Qed.
+
+(* ------------------------------------------------------------------ KSWIN: forced verdicts *)
+
+(** the exact p-value is antitone in the statistic *)
+Theorem C06_pvalue_antitone : forall (A : Arith) (X X' Y : list (NumSys.num A)) (a b : Z), 0 <= b ->
+  len X = len X' -> ks_H X Y <= ks_H X' Y ->
+  ks_p_le X Y a b = true -> ks_p_le X' Y a b = true.
+Proof. exact ks_p_antitone. Qed.
+Print Assumptions C06_pvalue_antitone.
+
+(** every sub-multiset S of the older values has its threshold counts squeezed ... *)
+Theorem C06_subsample_counts : forall (A : Arith) (old S rest : list (NumSys.num A)) (z : NumSys.num A),
+  Permutation old (S ++ rest) ->
+  Z.max 0 (len S - (len old - count_le z old)) <= count_le z S <= Z.min (len S) (count_le z old).
+Proof. exact (@sub_count_bounds). Qed.
+
+(** ... hence its statistic against the newest values lies between the bounds the harness
+    computes ([H_lo] / [H_hi] = [d_bounds] of harness/c06.py, defined in Proofs/WindowR.v) *)
+Theorem C06_subsample_H_bounds : forall (old S rest recent : list R) (n : Z),
+  Permutation old (S ++ rest) -> len (A:=RealA) S = n -> len (A:=RealA) recent = n ->
+  H_lo (A:=RealA) old recent n <= ks_H (A:=RealA) S recent <= H_hi (A:=RealA) old recent n.
+Proof. exact sub_H_bounds. Qed.
+Print Assumptions C06_subsample_H_bounds.
+
+(** If already the p-value at H_lo is <= alpha, EVERY size-num_test_instances sub-sample of the
+    older values is rejected, so the detector reports drift whatever the generator drew ... *)
+Theorem C06_kswin_forced_alarm : forall (c : kswin_cfg) (ops : list (op (R * list R))) (v : R) (sample : list R),
+  let s' := exec (KSWIND RealA) c (ops ++ [Upd (v, sample)]) in
+  let W := kwin s' in
+  let recent := lastn (Z.to_nat (kw_test c)) W in
+  let old := firstn (length W - Z.to_nat (kw_test c)) W in
+  0 <= kw_alpha_den c ->
+  kw_min c <= Z.of_nat (length W) ->
+  0 <= kw_test c <= Z.of_nat (length W) ->
+  (exists rest, Permutation old (sample ++ rest)) ->
+  len (A:=RealA) sample = kw_test c ->
+  p_le_at (kw_test c) (kw_test c) (H_lo (A:=RealA) old recent (kw_test c))
+          (kw_alpha_num c) (kw_alpha_den c) = true ->
+  kdrift s' = true.
+Proof. exact kswin_forced_alarm. Qed.
+Print Assumptions C06_kswin_forced_alarm.
+
+(** ... and if the p-value at H_hi is still > alpha, NO sub-sample is rejected: no drift. *)
+Theorem C06_kswin_forced_silent : forall (c : kswin_cfg) (ops : list (op (R * list R))) (v : R) (sample : list R),
+  let s' := exec (KSWIND RealA) c (ops ++ [Upd (v, sample)]) in
+  let W := kwin s' in
+  let recent := lastn (Z.to_nat (kw_test c)) W in
+  let old := firstn (length W - Z.to_nat (kw_test c)) W in
+  0 <= kw_alpha_den c ->
+  0 <= kw_test c <= Z.of_nat (length W) ->
+  (exists rest, Permutation old (sample ++ rest)) ->
+  len (A:=RealA) sample = kw_test c ->
+  p_le_at (kw_test c) (kw_test c) (H_hi (A:=RealA) old recent (kw_test c))
+          (kw_alpha_num c) (kw_alpha_den c) = false ->
+  kdrift s' = false.
+Proof. exact kswin_forced_silent. Qed.
+Print Assumptions C06_kswin_forced_silent.
+
+(** Same seed, same run: with the generator explicit (abstract state and draw function) the run
+    is a function of (config, seed state, stream), and it is the oracle run on the recorded draws. *)
+Theorem C06_kswin_seeded : forall (A : Arith) (G : Type)
+    (draw : G -> list (NumSys.num A) -> nat -> list (NumSys.num A) * G)
+    (c : kswin_cfg) (vs : list (NumSys.num A)) (s : kswin_st A) (g : G),
+  let '(s2, _, smps) := kswin_run_g draw c s g vs in
+  length smps = length vs /\
+  s2 = exec_from (KSWIND A) c s (map Upd (combine vs smps)).
+Proof. exact (@kswin_seeded_is_oracle_run). Qed.
+
+(* ------------------------------------------------------------------ STEPD: counts *)
+
+(** In every reachable state (min_num_instances >= 1), with bs the truthiness of the inputs
+    since the last reset: num_instances = |bs|, the overall correct counter = #true in bs, and
+    the AccuracyQueue holds exactly the last min(|bs|, min_num_instances) of them with its
+    size and true-counter equal to their number and number of trues. *)
+Theorem C06_stepd_counts : forall (A : Arith) (c : stepd_cfg A) (ops : list (op (NumSys.num A))), 1 <= sp_min c ->
+  let s := exec (STEPDD A) c ops in
+  let bs := map truthy (inputs_since_reset ops []) in
+  let W := lastn (Z.to_nat (sp_min c)) bs in
+  sn s = Z.of_nat (length bs) /\
+  scorrect s = Z.of_nat (count_occ bool_dec bs true) /\
+  cq_abs (a_q (swin s)) = map Some W /\
+  aq_size (swin s) = Z.min (Z.of_nat (length bs)) (sp_min c) /\
+  aq_num_true (swin s) = Z.of_nat (count_occ bool_dec W true).
+Proof. exact (@stepd_counts). Qed.
+Print Assumptions C06_stepd_counts.
+
+(** "overall minus window" = the counts of everything before the window *)
+Theorem C06_stepd_earlier_counts : forall (bs : list bool) (k : nat),
+  Z.of_nat (count_occ bool_dec bs true) - Z.of_nat (count_occ bool_dec (lastn k bs) true) =
+  Z.of_nat (count_occ bool_dec (firstn (length bs - k) bs) true) /\
+  Z.of_nat (length bs) - Z.of_nat (length (lastn k bs)) = Z.of_nat (length (firstn (length bs - k) bs)).
+Proof. exact stepd_earlier_counts. Qed.
+
+(* ------------------------------------------------------------------ STEPD: the rule *)
+
+(** For n >= 2 min: drift iff stat > z_d, else warning iff stat > z_w, where stat is the
+    continuity-corrected two-proportion z statistic ([stepd_stat], Model/Window.v) of
+    (n, #true overall, min, #true among the last min); no statistic (pooled accuracy 0 or 1)
+    or n < 2 min: no alarm.  Every number system. *)
+Theorem C06_stepd_rule : forall (A : Arith) (c : stepd_cfg A) (ops : list (op (NumSys.num A))) (v : NumSys.num A),
+  1 <= sp_min c ->
+  let ops' := ops ++ [Upd v] in
+  let s' := exec (STEPDD A) c ops' in
+  let bs := map truthy (inputs_since_reset ops' []) in
+  let n := Z.of_nat (length bs) in
+  let W := lastn (Z.to_nat (sp_min c)) bs in
+  if 2 * sp_min c <=? n then
+    match stepd_stat (A:=A) n (Z.of_nat (count_occ bool_dec bs true))
+                     (sp_min c) (Z.of_nat (count_occ bool_dec W true)) with
+    | None => sdrift s' = false /\ swarning s' = false
+    | Some t => sdrift s' = NumSys.ltb (sp_zd c) t /\
+                swarning s' = negb (NumSys.ltb (sp_zd c) t) && NumSys.ltb (sp_zw c) t
+    end
+  else sdrift s' = false /\ swarning s' = false.
+Proof. exact (@stepd_rule). Qed.
+Print Assumptions C06_stepd_rule.
+
+(** Over the reals, for ANY strictly decreasing survival function sf with sf z_d = alpha_d and
+    sf z_w = alpha_w: drift iff the one-sided p-value sf(stat) < alpha_d, warning iff
+    alpha_d <= sf(stat) < alpha_w. *)
+Theorem C06_stepd_rule_pvalue : forall (sf : R -> R), (forall x y : R, (x < y)%R -> (sf y < sf x)%R) ->
+  forall (c : stepd_cfg RealA) (alpha_d alpha_w : R) (ops : list (op R)) (v : R), 1 <= sp_min c ->
+  sf (sp_zd c) = alpha_d -> sf (sp_zw c) = alpha_w ->
+  let ops' := ops ++ [Upd v] in
+  let s' := exec (STEPDD RealA) c ops' in
+  let bs := map (truthy (A:=RealA)) (inputs_since_reset ops' []) in
+  let n := Z.of_nat (length bs) in
+  let W := lastn (Z.to_nat (sp_min c)) bs in
+  let stat := stepd_stat (A:=RealA) n (Z.of_nat (count_occ bool_dec bs true))
+                         (sp_min c) (Z.of_nat (count_occ bool_dec W true)) in
+  (sdrift s' = true <-> 2 * sp_min c <= n /\ exists t, stat = Some t /\ (sf t < alpha_d)%R) /\
+  (swarning s' = true <-> 2 * sp_min c <= n /\ exists t, stat = Some t /\ (alpha_d <= sf t < alpha_w)%R).
+Proof. exact stepd_rule_sf. Qed.
+Print Assumptions C06_stepd_rule_pvalue.
+
+Theorem C06_sf_inversion : forall (sf : R -> R), (forall x y : R, (x < y)%R -> (sf y < sf x)%R) ->
+  forall z alpha t : R, sf z = alpha -> (Rltb z t = true <-> (sf t < alpha)%R).
+Proof. exact sf_inversion. Qed.
+
+(* ------------------------------------------------------------------ non-vacuity *)
+From Coq Require Import PrimFloat.
+From FV Require Import FloatA.
+
+(** KSWIN, alpha = 1/20, window 8, test size 4: after 1..4 then 11..14 the window is full, old
+    and recent are disjoint, every sub-sample has H = 16 (H_lo = H_hi = 16, p = 2/70 <= 1/20):
+    drift.  With overlapping ranges the bounds differ (0 and 8) and 8 is attained. *)
+Example C06_kswin_nonvacuous :
+  let c := {| kw_alpha_num := 1; kw_alpha_den := 20; kw_min := 8; kw_test := 4 |} in
+  let smp := [3; 1; 4; 2]%float in
+  map (fun s => (length (kwin s), kdrift s))
+      (trace (KSWIND FloatA) c (map (fun v => Upd (v, smp)) [1; 2; 3; 4; 11; 12; 13; 14]%float))
+  = [(1, false); (2, false); (3, false); (4, false); (5, false); (6, false); (7, false); (8, true)]%nat
+  /\ (H_lo (A:=FloatA) [1; 2; 3; 4]%float [11; 12; 13; 14]%float 4,
+      H_hi (A:=FloatA) [1; 2; 3; 4]%float [11; 12; 13; 14]%float 4) = (16, 16)
+  /\ (p_le_at 4 4 16 1 20, p_le_at 4 4 12 1 20, paths_total 4 4, paths_inside 4 4 16) = (true, false, 70, 68)
+  /\ (H_lo (A:=FloatA) [1; 2; 3; 4; 5; 6]%float [3; 4; 5; 6]%float 4,
+      H_hi (A:=FloatA) [1; 2; 3; 4; 5; 6]%float [3; 4; 5; 6]%float 4,
+      ks_H (A:=FloatA) [1; 2; 3; 4]%float [3; 4; 5; 6]%float,
+      ks_H (A:=FloatA) [3; 4; 5; 6]%float [3; 4; 5; 6]%float) = (0, 8, 8, 0).
+Proof. vm_compute. repeat split; reflexivity. Qed.
+
+(** STEPD, min = 2, z_d = 0.9, z_w = 0.5: stream 1 1 0 0 1 0 0 gives statistic 1.0 at step 4
+    (drift) and a warning at step 7; columns: n, correct overall, window size, window trues *)
+Example C06_stepd_nonvacuous :
+  let c := {| sp_zd := 0x1.ccccccccccccdp-1%float; sp_zw := 0.5%float; sp_min := 2 |} : stepd_cfg FloatA in
+  map (fun s => (sn s, scorrect s, aq_size (swin s), aq_num_true (swin s), sdrift s, swarning s))
+      (trace (STEPDD FloatA) c (map Upd [1; 1; 0; 0; 1; 0; 0]%float))
+  = [(1, 1, 1, 1, false, false); (2, 2, 2, 2, false, false); (3, 2, 2, 1, false, false);
+     (4, 2, 2, 0, true, false); (5, 3, 2, 1, false, false); (6, 3, 2, 1, false, false);
+     (7, 3, 2, 0, false, true)]
+  /\ stepd_stat (A:=FloatA) 4 2 2 0 = Some 1%float.
+Proof. vm_compute. split; reflexivity. Qed.
